@@ -309,14 +309,21 @@ def r3_data_closure(ctx):
         r.missing("icu_datagen registry.rs", "(dependency source not found through cargo metadata)")
         return r
     known_names = set(v for v in reg.values() if v)
+    # the key list of every family: Options::into_data_keys evaluated (rules/absint.py) for each variant - whatever helpers
+    # or dependency tables it is built from
+    from rules import absint
+    from rules.absint import AEval, C as _C, L as _L
+    e0 = ast.enum(DK, "Options")
     listed = {}
-    m = find_first(fn.body, "Match")
-    for a in (m or {"arms": []})["arms"]:
-        v = flat(show_pat(a["pat"])).replace("Options::", "")
-        lits = [n["str"] for n in find_all(a["body"], "Lit") if "str" in n]
-        if not re.match(r"^\{?icu_datagen::keys\(&\[", flat(show(a["body"]))):
-            r.viol("R3:into_data_keys#%s" % v, "keys are not produced by icu_datagen::keys(&[..])", file=fn.file, line=a["line"])
-        listed[v] = lits
+    funcs_dk = absint.file_funcs(ast, DK, impl_self="Options")
+    for var in (v["name"] for v in (e0 or {"variants": []})["variants"]):
+        ev_ = AEval(funcs=funcs_dk)
+        ev_.path_builtins = {"icu_datagen::keys": lambda a: a[0], "keys": lambda a: a[0], "icu_datagen::key": lambda a: a[0]}
+        got = ev_.run_fn(fn, [_C(var)])
+        if isinstance(got, str) or got[0] != "list" or not all(x[0] == "str" for x in got[1]):
+            r.viol("R3:into_data_keys#%s" % var, "the keys of Options::%s cannot be determined: %s" % (var, got if isinstance(got, str) else absint.fmt(got)[:120]), file=fn.file, line=fn.line)
+            continue
+        listed[var] = [x[1] for x in got[1]]
     e = ast.enum(DK, "Options")
     ev = sorted(v["name"] for v in e["variants"]) if e else []
     if ev != sorted(FAMILY_CTORS) or sorted(listed) != ev:
